@@ -44,6 +44,8 @@ def _cvc5_check(text, timeout_ms):
 
 def _work(item):
     key, text, timeout_ms, expect_sat, use_cvc5 = item
+    if expect_sat:           # reachability covers: a quick sanity query, inconclusive is acceptable
+        timeout_ms, use_cvc5 = min(timeout_ms, 3000), False
     r, t, reason = _z3_check(text, timeout_ms)
     backend = "z3"
     if r == "unknown" and use_cvc5:
